@@ -7,10 +7,20 @@ import numpy as np
 COLS = ["id", "type", "x", "y", "z", "r", "pid"]
 
 
-def build_tree(t: dict, *, comments=None, source: str = ""):
+def build_tree(t: dict, *, comments=None, source: str = "", custom_names: bool = False):
     from swcgeom.core import Tree
 
     n = len(t["pid"])
+    if custom_names:
+        # the same table under other column names (SWCNames is a parameter of every table-level API)
+        from swcgeom.core.swc_utils import SWCNames
+
+        nm = SWCNames(id="n", type="kind", x="px", y="py", z="pz", r="radius", pid="parent")
+        cols = {nm.id: np.arange(n, dtype=np.int32), nm.type: np.array(t["type"], dtype=np.int32),
+                nm.x: np.array(t["x"], dtype=np.float32), nm.y: np.array(t["y"], dtype=np.float32),
+                nm.z: np.array(t["z"], dtype=np.float32), nm.r: np.array(t["r"], dtype=np.float32),
+                nm.pid: np.array(t["pid"], dtype=np.int32)}
+        return Tree(n, names=nm, comments=list(comments) if comments is not None else None, source=source, **cols)
     return Tree(
         n,
         id=np.arange(n, dtype=np.int32),
